@@ -102,6 +102,7 @@ def check(run, replay=None):
         if run.tier == "thorough":
             for dev in ("KeepRolledBackPiece", "FrontInsert"):
                 core.model_check("OdeSystemMC", "OdeSystem_dev" + dev, expect_violation="PiecesAreSteps")
+            core.model_check("OdeSystemMC", "OdeSystem_devBisectAfterTurn", expect_violation="QueriesAnsweredByContainingStep")
         scs = scenarios(run.tier, run.seed)
     obs = core.pool_map(dense_events.observe, scs)
     crashed = [o for o in obs if "crash" in o]
